@@ -238,6 +238,27 @@ def run(ctx, rep):
                           'the checksum of the run\'s first slot: slots of two different entries can be spliced into one name '
                           '(only the first slot is later validated against the short entry)')
 
+    # ---------------- T3.start a new run sizes the accumulator before anything is copied into it
+    if PR is not None:
+        starts = [bi for bi in PR.reachable() for st_ in PR.blocks[bi]['stmts']
+                  if st_['k'] == 'assign' and any('f' in e and e.get('n') == 'chksum' for e in st_['lhs']['p'])]
+        setlen = {b for b, t in PR.calls() if (t.get('callee') or '').endswith('LfnBuffer::set_len')}
+        copies2 = {b for b, t in PR.calls() if (t.get('callee') or '').endswith('::copy_name_to_slice')}
+        ok = bool(starts) and bool(setlen)
+        for sb in starts:
+            if sb in setlen:
+                continue
+            if set(PR.reach_from(list(PR.succ(sb)), cut_blocks=setlen)) & copies2:
+                ok = False
+        rep.oblige('T3.start', PR.name, ok=ok, nontrivial=True,
+                   sample={'fn': PR.name, 'run_starts': len(starts), 'set_len_sites': len(setlen),
+                           'rule': 'every path from the start of a run to the copy of a name part passes set_len'})
+        if not ok:
+            rep.violation('T3', vkey('T3', PR.name, 'run-start-resizes', ''), PR.loc(PR.span),
+                          'a slot that starts a new long-name run can be copied into the accumulator without the accumulator having '
+                          'been resized for that run: units of an abandoned longer run stay behind the new name and are returned '
+                          'with it')
+
     # ---------------- T3b paired reset on the skip arm
     clears = [b for b, t in R.calls() if (t.get('callee') or '').endswith('LongNameBuilder::clear')]
     # the local that becomes offset_range.0 of the returned entry
